@@ -326,7 +326,20 @@ def power_above_proof():
     return [("lemma-step", "power_above", [power_mono(k), k >= 1, m >= 0, pw(k, m) >= n, d >= m], pw(k, d) >= n)] + power_mono_proof()
 
 
+def mul_mono(a, g, t):
+    """a >= 0 and g <= t  =>  a * g <= a * t, and the products are non-negative when g is (also read as reals)"""
+    ra, rg, rt = z3.ToReal(a), z3.ToReal(g), z3.ToReal(t)
+    return z3.Implies(z3.And(a >= 0, g <= t), z3.And(a * g <= a * t, ra * rg <= ra * rt, ra * rt == z3.ToReal(a * t),
+                                                      z3.Implies(g >= 0, z3.And(a * g >= 0, ra * rg >= 0, ra * rt >= 0))))
+
+
+def mul_mono_proof():
+    a, g, t = z3.Ints("a!l g!l t!l")
+    return [("lemma-step", "mul_mono", [], mul_mono(a, g, t))]
+
+
 LEMMAS = {
+    "mul_mono": (mul_mono, mul_mono_proof),
     "power_above": (power_above, power_above_proof),
     "power_mono": (power_mono, power_mono_proof),
     "nested_ceil": (nested_ceil, nested_ceil_proof),
